@@ -39,5 +39,7 @@ TNext ==
 Accepted == stage = "done" /\ tpos = Len(Log) + 1 /\ err = ""
 Accept == ~Accepted \/ PrintT(<<"ACC", cid>>)
 \* an error of the heap model on a path that matches a sanitizer-clean real run would mean the model is too strict
+\* the trace bounds the exploration: no more allocations than logged events (plus those of initialize)
+TBound == nb <= Len(Log) + 8
 ModelErrorOnMatchedPath == err = "" \/ PrintT(<<"MERR", cid, err, tpos>>)
 =============================================================================
